@@ -370,6 +370,11 @@ func init() {
 				r.Case(cv, c19Elements(d), fmt.Sprintf("mode%d", mode), nb >= 4)
 				items[mode] = c19Items(d)
 				texts[mode], _ = rd.TextWithOptions(opts)
+				// Markdown and the document model carry the same content in the same order as the text
+				md, merr := rd.MarkdownWithOptions(opts)
+				ta, ma, da := strings.Join(anchorsOf(texts[mode]), " "), strings.Join(anchorsOf(md), " "), strings.Join(anchorsOf(strings.Join(items[mode], "\n")), " ")
+				r.Check(merr == nil && ma == ta && da == ta, "markdown-and-document-follow-text", fmt.Sprintf("mode %d: text carries %q, Markdown %q, the document model %q", mode, ta, ma, da), Bs(doc))
+				r.Check(!strings.Contains(md, "color:red") && !strings.Contains(md, "document.write"), "script-style-leak", "script or style text in the Markdown", Bs(doc))
 				// the same reader asked again, and after the other modes, answers the same (cache)
 				for m2 := 3; m2 >= 0; m2-- {
 					rd.TextWithOptions(htmldoc.ExtractOptions{NavigationExclusion: htmldoc.NavigationExclusionMode(m2)})
